@@ -214,6 +214,7 @@ loop:
 			}
 			st.CommentsBefore = verifComments(tf, fout.Comments)
 			fout.Comments = cleanupFilePos(fset.File(fout.Pos()), cl, fout.Comments)
+			engine.DetachEmptyComments(fout)
 			st.CommentsAfter = verifComments(tf, fout.Comments)
 			tr.Steps = append(tr.Steps, st)
 		}
@@ -224,6 +225,7 @@ loop:
 	tr.Out = fout
 
 	var out bytes.Buffer
+	engine.Parenthesize(fout)
 	if err := verifFormat(&out, fset, fout); err != nil {
 		tr.FormatErr = err.Error()
 		return tr
